@@ -215,7 +215,7 @@ def E1() -> bool:
 
 
 def _shards(tier):
-    s = {"N": 4, "D": 3} if tier == "quick" else {"N": 6, "D": 4}
+    s = {"N": 4, "D": 3} if tier == "quick" else {"N": 5, "D": 4}
     return [dict(s, prefix=p) for p in enumerate_prefixes(body_E1, "X", {}, s, 2 if tier == "quick" else 3)]
 
 
@@ -230,6 +230,6 @@ OBLIGATIONS = [
         shards=_shards,
         twin=[{"N": 4, "D": 3, "twin_label": "inner-raise"}],
         timeout={"quick": 100, "thorough": 1200},
-        bounds={"quick": "<= 4 ops, depth <= 3; ops: with / context() / run() on a new action, context()/run() re-entering any enclosing action, generator body closed early, start_task, log_message, exit, raise caught j levels out", "thorough": "<= 6 ops, depth <= 4"},
+        bounds={"quick": "<= 4 ops, depth <= 3; ops: with / context() / run() on a new action, context()/run() re-entering any enclosing action, generator body closed early, start_task, log_message, exit, raise caught j levels out", "thorough": "<= 5 ops, depth <= 4"},
     ),
 ]
